@@ -73,7 +73,8 @@ Definition pentry_eqb (a b : pentry) : bool :=
   | EBad, EBad => true
   | EHash h, EHash h' => bytes_eqb h h'
   | EFull (NLeaf k v), EFull (NLeaf k' v') => bytes_eqb k k' && bytes_eqb v v'
-  | EFull (NInt bl lb lf), EFull (NInt bl' lb' lf') => (bl =? bl') && bytes_eqb lb lb' && olf_eqb lf lf'
+  | EFull (NInt bl lb lf cl), EFull (NInt bl' lb' lf' cl') =>
+      (bl =? bl') && bytes_eqb lb lb' && olf_eqb lf lf' && olf_eqb cl cl'
   | _, _ => false
   end.
 Definition pres_eqb (a b : pres) : bool :=
